@@ -2,6 +2,8 @@
 
 package domain
 
+import "strings"
+
 // ---- reference (written from the property text, byte level, no strings package) ----
 
 func vrtLower(c byte) byte {
@@ -111,6 +113,8 @@ func vrtHarness_C12_mix() {
 	}
 	m.SetDefaultMatcher(names[def])
 	var rules []vrtRule
+	viaReader := vrtParam("via_reader", 0) == 1 && vrtChoice(2) == 1
+	text := "# rules\n\n"
 	for i := 0; i < K; i++ {
 		typ := only
 		if only == 0 {
@@ -132,8 +136,18 @@ func vrtHarness_C12_mix() {
 		} else {
 			pat = vrtDomainText(n, vrtParam("plain", 0) == 0 && vrtChoice(2) == 1)
 		}
-		vrtAssume(Load[int](m, prefixes[typ]+pat, func(s string) (string, int, error) { return s, i + 1, nil }) == nil)
+		if viaReader {
+			text += "  " + prefixes[typ] + pat + " \t# rule\n\n"
+		} else {
+			vrtAssume(Load[int](m, prefixes[typ]+pat, func(s string) (string, int, error) { return s, i + 1, nil }) == nil)
+		}
 		rules = append(rules, vrtRule{typ: eff, pat: pat, norm: vrtNorm(pat)})
+	}
+	if viaReader {
+		// the same rules as a text file: comment lines, blank lines, indentation, trailing blanks and comments
+		line := 0
+		vrtAssume(LoadFromTextReader[int](m, strings.NewReader(text), func(s string) (string, int, error) { line++; return s, line, nil }) == nil)
+		vrtCover("rules loaded from a text reader", true)
 	}
 	nameLen := 1 + vrtChoice(maxName)
 	if vrtParam("plain", 0) == 1 {
